@@ -294,7 +294,7 @@ def short(kv):
 
 def run(args):
     res = common.Result("C04", args.tier, args.seed, "proof")
-    bdir, audit, proof_problems = common.standard_setup(res, "C04", ["FileFormat"])
+    bdir, audit, proof_problems = common.standard_setup(res, "C04", ["FileFormat", "ListParams", "TargetDesc"])
     if bdir is None:
         return res.finish()
     ok = not any(p.startswith("driver does not build") for p in proof_problems)
@@ -338,8 +338,8 @@ def run(args):
             progs.append((src, tail + qtok, st, "rept:%d" % i, used))
         # record boundaries decided by the statement layer: processor / address space changed by CPU, SEGMENT, SAVE / RESTORE
         rng3 = common.rng_for(args.seed, "C04-ctl")
-        for i in range(60 if quick else 700):
-            src, tail, st, used = c04_ctl.gen_ctl(rng3, TARGETS, data_stmt, reserve_stmt, args.tier, shape="wrap" if i % 5 < 2 else None)
+        for i in range(90 if quick else 900):
+            src, tail, st, used = c04_ctl.gen_ctl(rng3, TARGETS, data_stmt, reserve_stmt, args.tier, shape="wrap" if i % 5 < 2 else ("order" if i % 5 == 4 else None))
             progs.append((src, tail, st, "ctl:%d" % i, used))
         # sources for the joint runs (each is also judged alone, like every other program)
         plans = c04_stmt.session_plan(rng2, args.tier)
@@ -382,6 +382,18 @@ def run(args):
             for k in st:
                 agg[k] = agg.get(k, 0) + st[k]
             distinct.add(tail if len(tail) < 4000 else hash(tail))
+        # the processor table of the statement-level generator (family byte, address units, list units, TurnWords) against the
+        # parameters dumped from the current build, and the hypothesis of C04_order_word_bytes for every processor given 16-bit data
+        if ok:
+            preqs, ptgts = c04_ctl.params_requests(TARGETS)
+            for t, ans in zip(ptgts, common.driver("c04p", preqs)):
+                kv = verdict_fields(ans)
+                agg["params_" + kv.get("params", "?")] = agg.get("params_" + kv.get("params", "?"), 0) + 1
+                if kv.get("params") != "ok":
+                    corr_fail.append(dict(tag="params:" + t["cpu"], why="processor description used by the generator / the model differs from what "
+                                          "`cpu %s` establishes in the current build (Generated/ListParams): %s" % (t["cpu"], ans)))
+                if c04_ctl.order_of(t)[0] is not None and kv.get("coherent") != "ok":
+                    proof_problems.append("processor description of %s is outside the hypothesis of C04_order_word_bytes: %s" % (t["cpu"], ans))
         answers = common.driver("c04", reqs, timeout=3600) if ok and reqs else []
         for (src, tail, st, tag, used), ans in zip(metas, answers):
             kv = verdict_fields(ans)
@@ -451,11 +463,15 @@ def run(args):
         evaluations=len(reqs) + sum(len(m[1]) for m in smetas), distinct_nontrivial=len(distinct),
         rule="random data/reservation/ORG/SEGMENT/CPU/END programs over 9 targets (gran 1/2/4), lengths from pools around 511/512/513, 1023..1025, 65534/65535; "
              "BINCLUDE of generated files (0..140000 bytes; whole / offset / offset+length) at chosen fill levels of the open record on 6 byte-addressed targets with 16 MiB..4 GiB address spaces; "
-             "REPT bodies and nested DUP groups; statement-level sources (CPU over 13 processors of 9 families incl. two members of one family, SEGMENT, ORG also to the current address, reservations, "
+             "REPT bodies and nested DUP groups; statement-level sources (CPU over 24 processors of 19 families incl. members of one family, big- and little-endian, word- and byte-listed back ends "
+             "(H8/300, H8/300H, H8/500, 68000, 6809, 68HC11, TMS9900, SH7000, XGATE, Z8001, 1802 / Z80, 8051, 6502, 8086, MSP430, PIC, AVR, C2x) in every order, 16-bit data statements directly behind CPU / RESTORE "
+             "judged per byte by Model/CodeOrder (word buffer, TurnWords, DreheCodes) + specWordBytes, SEGMENT, ORG also to the current address, reservations, "
              "SAVE / RESTORE nested up to 5 deep restoring processor, address space, both or neither, data directly behind RESTORE) judged by Model/CodeCtl + specCellsC; joint runs of 2..4 sources ending in END <address> / END / nothing in every order (at most 6 per set in the quick tier), output names by default and by -o, "
              "with and without a forced further pass; non-trivial = at least one emitting statement; distinct by event list / by (source set, order, naming, passes)",
         samples=samples, distribution=agg)
     res.assumptions = ["generator's byte encoding of data statements (little-endian words on PIC/C3x) is the oracle for what the source specifies",
+                       "the byte order class of each processor (c04_ctl.ORDER_TARGETS / ORDER_OF: big- or little-endian 16-bit data) is taken from the processors' data books / doc/pseudo-instructions.md",
+                       "host is little-endian (HostBigEndian = 0): Model/CodeOrder lays WAsmCode[] words down low byte first",
                        "creator string is not compared (taken from the real file)",
                        "where the answer says l1=thm the byte machine's file was taken from theorem C04_refine (= serialised record machine) instead of executing it"]
     return common.conclude(res, proof_problems, spec_fail, corr_fail, len(reqs) + len(sreqs))
